@@ -238,6 +238,12 @@ class Ctx:
         if self.exhaustive is not None:
             coverage['exhaustive'] = bool(self.exhaustive)
         coverage.update(jsonable(self.extra))
+        try:
+            from . import vtime
+            if vtime.SCENARIOS['total']:
+                coverage['virtual_loop_scenarios'] = dict(vtime.SCENARIOS)
+        except Exception:   # noqa
+            pass
         ev = {
             'property_id': self.prop, 'tier': self.tier, 'seed': int(self.seed),
             'level': self.level, 'coverage': coverage,
